@@ -119,6 +119,7 @@ def run(rep, tier, seed):
     sim = loadcheck.explore(rep, "MC_C02", 8, simulate={"num": 300 if tier == "quick" else 3000, "depth": 400},
                             invariants=loadcheck.INVARIANTS, props=[])
     cases += sim
+    cases += loadcheck.explore(rep, "MC_C02", 4, items="Redecl", metas="Metas", label="MC_C02 an indexed array declared again (4 items)", props=[])
     loadcheck.replay_cases(rep, cases, seed, sections=("meta", "ops", "modes"), fingerprint=fingerprint, strict_cls=False)
     real_world(rep)
     rep.cov["rule"] = ("scripts built item by item from a menu of 20 body items (typed scalars, arrays, statements with every argument/bracket "
